@@ -8,6 +8,8 @@
 //! reload). Long-form lifecycle: `bin/src/command/LIFECYCLE.md`.
 
 mod requests;
+#[cfg(sozu_verif)]
+pub use requests::verif_stop_task_on_finish;
 pub mod server;
 pub mod sessions;
 pub mod upgrade;
